@@ -71,17 +71,17 @@ INVERSE_PAIRS = {
     ("'true'", "getboolean(□)"): "INI boolean: 'true' written under a truthy guard, read with getboolean",
     ("str(□)", "int(getfloat(□))"): "integer build timestamps (quantifier: integer timestamps): str <-> int(getfloat)",
     ("str(int(□))", "getint(□)"): "media numbers: str(int(x)) <-> getint",
-    ("','.join(sorted((□ | {self.arch})))", "set(gen<$0 for $0 in □.split(',') if $0>)"):
+    ("','.join(sorted((□ | {self.arch})))", "set<$0 for $0 in □.split(',') if $0>"):
         "platforms: sorted comma list of the set (plus the tree arch, C17) <-> set of the non-empty items",
     ("□", "self._fix_path(□)"): "_fix_path is the identity for every version but 0.0 (R-GATE)",
-    ("','.join(sorted((□ | {self.arch})))", "set(gen<$0.strip() for $0 in □.split(',') if $0.strip()>)"):
+    ("','.join(sorted((□ | {self.arch})))", "set<$0.strip() for $0 in □.split(',') if $0.strip()>"):
         "platforms read tolerantly (blanks around names dropped): inverse when the validator refuses padded names",
 }
 
 
 # pairs that are inverse only on a restricted domain, which the writer-side validator must guarantee
 PAIR_PRECONDITION = {
-    ("','.join(sorted((□ | {self.arch})))", "set(gen<$0.strip() for $0 in □.split(',') if $0.strip()>)"): ("elements-unpadded",),
+    ("','.join(sorted((□ | {self.arch})))", "set<$0.strip() for $0 in □.split(',') if $0.strip()>"): ("elements-unpadded",),
     ("□", "int(□)"): ("int",),
     ("□", "bool(□)"): ("bool",),
 }
@@ -746,8 +746,11 @@ def r_gate(model, rep, tier, only=None):
         rep.ob("R-GATE", "%s:no-undocumented-dispatch" % q, not stray, site=cx.site(stray[0].lineno if stray else f.node),
                msg="" if not stray else "line %s is active for a set of versions that matches no documented gate of %s" % (stray[0].lineno, q))
     if only is None:
-        if len(sites) < 15:
-            raise AnalysisError("vacuity guard: %d version-gate sites found (floor 15)" % len(sites))
+        # (counted on what was examined - functions whose events are gated -, not on comparison nodes in the source: a dispatch
+        # helper shared by several readers is one comparison and many gated functions)
+        n_gated = len([q for q in funcs if q in table])
+        if n_gated < 14:
+            raise AnalysisError("vacuity guard: %d version-gated functions examined (floor 14)" % n_gated)
         rep.count("gate_sites", len(sites))
         rep.extra["exhaustive_gate_grid"] = len(grid)
 
